@@ -67,8 +67,8 @@ var props = map[string]propSpec{
 		requiredProbes: []string{"checkpoint-written", "latest-reset", "read-only-session", "seeded:>=2^63", "seeded:2^53..2^63", "seeded:0"}},
 	"C08": {level: "exploration", quickRuns: 2500, thoroughRuns: 60000, runLimit: 30 * time.Second,
 		requiredProbes: []string{"rollback-honoured", "rollback:R=F", "rollback:R=0", "rollback:R<F", "event-exactly-at-F", "second-rollback", "re-request-failed"}},
-	"C15": {level: "fault_enumeration", quickRuns: 2000, thoroughRuns: 40000, runLimit: 30 * time.Second,
-		requiredProbes: []string{"startup-fault:none", "startup-fault:ckpt-above-high", "startup-fault:load-error", "startup-fault:load-silent", "startup-fault:seqnos-error", "startup-fault:flog-error", "startup-fault:sreq-error", "startup-fault:sreq-silent", "startup-fault:bad-membership", "startup-fault:bad-metadata", "startup-fault:file-read-error", "ckpt-above-high:vb-missing-in-seqno-reply"}},
+	"C15": {scenarios: []string{"C15", "C15", "C15", "C12"}, level: "fault_enumeration", quickRuns: 2700, thoroughRuns: 40000, runLimit: 30 * time.Second,
+		requiredProbes: []string{"startup-fault:none", "startup-fault:ckpt-above-high", "startup-fault:load-error", "startup-fault:load-silent", "startup-fault:seqnos-error", "startup-fault:flog-error", "startup-fault:sreq-error", "startup-fault:sreq-silent", "startup-fault:bad-membership", "startup-fault:bad-metadata", "startup-fault:file-read-error", "ckpt-above-high:vb-missing-in-seqno-reply", "stream-ended-during-open-judged"}},
 	"C12": {scenarios: []string{"C12", "C12", "C12", "C12r"}, level: "exploration", quickRuns: 2500, thoroughRuns: 60000, runLimit: 30 * time.Second,
 		requiredProbes: []string{"transient-end", "final-end", "reopened-after-transient-end", "repeated-transient-end-same-vb", "client-stopped-after-last-final-end", "finite-completion", "active-streams-judged", "end-cause:socket-closed", "five-reopen-failures", "finite-completion-after-rebalance", "reopened-after-transient-end:filtered-stream", "reopened-after-transient-end:after-a-rebalance"}},
 	"C07": {level: "exploration", quickRuns: 3500, thoroughRuns: 50000, runLimit: 30 * time.Second,
